@@ -817,6 +817,9 @@ def value_attr(ex, st, v, attr, node):
         r = pdlib.frame_attr(ex, st, v, attr, node)
         if r is not None:
             return r
+    if attr in ("tolist", "item") and (ty.is_z3(v) or isinstance(v, (int, bool, Fraction))):
+        # a numpy scalar (one entry of an array): .tolist() / .item() is the python value itself
+        return _out(Intrinsic("numpy_scalar." + attr, lambda ex_, st_, recv, a, k, n: _out(recv, st_), recv=v), st)
     meths = VALUE_METHODS.get(type(v).__name__, {})
     if attr in meths:
         return _out(Intrinsic(f"{type(v).__name__}.{attr}", meths[attr], recv=v), st)
